@@ -6,6 +6,8 @@ package hsink
 import (
 	"errors"
 	"io"
+	"runtime"
+	"strings"
 	"sync"
 
 	"verif/mc/mcrt"
@@ -41,7 +43,9 @@ type Sink struct {
 
 func (s *Sink) Write(p []byte) (int, error) {
 	if s.Fail {
-		mcrt.Yield("failing-write:" + s.Name)
+		if !underSlog() {
+			mcrt.Yield("failing-write:" + s.Name)
+		}
 		s.Writes++
 		return 0, errNoSpace
 	}
@@ -60,10 +64,11 @@ func (s *Sink) Write(p []byte) (int, error) {
 		mcrt.Recv2(s.Gate)
 		s.passed = true
 	}
-	if !s.NoYield {
+	noYield := s.NoYield || underSlog()
+	if !noYield {
 		mcrt.Yield("write:" + s.Name)
 	}
-	if s.Split && len(p) > 1 && !s.NoYield {
+	if s.Split && len(p) > 1 && !noYield {
 		h := len(p) / 2
 		s.Buf = append(s.Buf, p[:h]...)
 		mcrt.Yield("write-second-half:" + s.Name)
@@ -81,6 +86,7 @@ func (s *Sink) Len() int { return len(s.Buf) }
 // Sinks is a factory for named sinks (the dailylogger replacement).
 type Sinks struct {
 	ByLeader map[string]*Sink
+	byPath   map[string]*Sink
 	Split    bool
 	Fail     bool
 	// MayFailTrailer: sinks whose file name ends like this may fail single writes.
@@ -92,6 +98,15 @@ func (f *Sinks) New(dir, leader, trailer string) io.Writer {
 	if f.ByLeader == nil {
 		f.ByLeader = map[string]*Sink{}
 	}
+	// two writers made for the same directory and name write to the same file
+	// (the daily writer opens it for appending): they share one sink
+	path := dir + "/" + leader + trailer
+	if f.byPath == nil {
+		f.byPath = map[string]*Sink{}
+	}
+	if s, ok := f.byPath[path]; ok {
+		return s
+	}
 	s := &Sink{Name: leader + trailer, Split: f.Split, Fail: f.Fail}
 	if f.MayFailTrailer != "" && trailer == f.MayFailTrailer {
 		s.MayFail = true
@@ -100,8 +115,27 @@ func (f *Sinks) New(dir, leader, trailer string) io.Writer {
 		// event logs are written through log/slog
 		s.NoYield, s.Fail = true, false
 	}
+	f.byPath[path] = s
 	f.ByLeader[leader+trailer] = s
 	return s
+}
+
+// underSlog reports whether the current call comes from inside log/slog, whose
+// handler holds its own (real) mutex while it writes: yielding there would park
+// the thread with a lock the scheduler cannot see.
+func underSlog() bool {
+	var pcs [24]uintptr
+	n := runtime.Callers(3, pcs[:])
+	frames := runtime.CallersFrames(pcs[:n])
+	for {
+		fr, more := frames.Next()
+		if strings.HasPrefix(fr.Function, "log/slog.") {
+			return true
+		}
+		if !more {
+			return false
+		}
+	}
 }
 
 // Get returns the sink created for leader+trailer, or an empty one.
